@@ -1,8 +1,7 @@
 /-
 Helper lemmas for `Props/C10.lean`, part 1: the passes of `apply_proposals_from_member` that do not look
 at the tree (`retain`, `filterProposers`, `filterPsks`, `filterExtraGce`, `filterReinitIfOther`), the
-decomposition `applyFromMember = prepare >>= applyProposalChanges`, and the predicate `Clean` that
-describes the bundles the strict mode lets through.  Core Lean only.
+decomposition `applyFromMember = prepare >>= applyProposalChanges`.  Core Lean only.
 -/
 import MlsVerif.Model.Proposals
 
